@@ -47,7 +47,7 @@ class Closure:
 PURE_METHODS = {list: {'index', 'count', 'copy'}, tuple: {'index', 'count'}, dict: {'get', 'keys', 'values', 'items', 'copy'},
                 str: {'startswith', 'endswith', 'strip', 'lower', 'upper', 'split', 'format', 'join', 'replace'}}
 BUILTINS = {'str': str, 'int': int, 'float': float, 'bool': bool, 'list': list, 'tuple': tuple, 'dict': dict, 'len': len, 'isinstance': isinstance, 'sorted': sorted,
-            'reversed': lambda x: list(reversed(x)), 'range': lambda *a: list(range(*a)), 'enumerate': lambda x: list(enumerate(x)), 'min': min, 'max': max, 'any': any, 'all': all,
+            'reversed': lambda x: list(reversed(x)), 'range': lambda *a: list(range(*a)), 'enumerate': lambda x, start=0: list(enumerate(x, start)), 'min': min, 'max': max, 'any': any, 'all': all,
             'zip': lambda *a: list(zip(*a)), 'set': set, 'frozenset': frozenset, 'sum': sum, 'abs': abs}
 MUTATORS = {list: {'append', 'extend', 'insert'}, dict: {'update', 'setdefault', '__setitem__'}, set: {'add', 'update'}}
 _MISSING = object()
@@ -121,6 +121,8 @@ def ev(e, env):
             return o[k]
         except (KeyError, IndexError, TypeError) as ex:
             raise Raised('%s: %r' % (type(ex).__name__, k))
+    if isinstance(e, ast.Call) and isinstance(e.func, ast.Name) and e.func.id == 'enumerate' and e.func.id not in env and len(e.keywords) == 1 and e.keywords[0].arg == 'start' and len(e.args) == 1:
+        return list(enumerate(ev(e.args[0], env), ev(e.keywords[0].value, env)))
     if isinstance(e, ast.Call) and isinstance(e.func, ast.Name) and not e.keywords and (isinstance(env.get(e.func.id), Closure) or (e.func.id not in env and e.func.id in BUILTINS and e.func.id not in ('any', 'all', 'len', 'list', 'bool', 'type'))):
         fn_ = env.get(e.func.id) or BUILTINS[e.func.id]
         try:
@@ -237,9 +239,16 @@ def run_body(stmts, env):
                 raise AnalysisError('pure evaluator: unpacking mismatch')
             for t, x in zip(s.targets[0].elts, v):
                 env[t.id] = x
-        elif isinstance(s, ast.For) and isinstance(s.target, ast.Name) and not s.orelse:
+        elif isinstance(s, ast.For) and not s.orelse and (isinstance(s.target, ast.Name) or (isinstance(s.target, ast.Tuple) and all(isinstance(t, ast.Name) for t in s.target.elts))):
             for item in list(ev(s.iter, env)):
-                env[s.target.id] = item
+                if isinstance(s.target, ast.Name):
+                    env[s.target.id] = item
+                else:
+                    item = tuple(item)
+                    if len(item) != len(s.target.elts):
+                        raise Raised('ValueError')
+                    for t, x in zip(s.target.elts, item):
+                        env[t.id] = x
                 try:
                     run_body(s.body, env)
                 except _Break:
@@ -299,6 +308,13 @@ def call(fnode, args, globals_=None, strict_locals=False, mutable=False, methods
     method build the small worlds its readers are then evaluated on; methods: {name: FunctionDef} callable on world objects"""
     params = [a.arg for a in fnode.args.args]
     env = dict(globals_ or {})
+    # parameters the caller leaves out take their (constant) defaults
+    for a_, d_ in zip(reversed(fnode.args.args), reversed(fnode.args.defaults)):
+        if isinstance(d_, ast.Constant):
+            env[a_.arg] = d_.value
+    for a_, d_ in zip(fnode.args.kwonlyargs, fnode.args.kw_defaults):
+        if isinstance(d_, ast.Constant):
+            env[a_.arg] = d_.value
     env.update(zip(params, args))
     if strict_locals:
         env['__strict_locals__'] = True
